@@ -103,6 +103,11 @@ CHECKS = {
    note=TB + "The map seed → random draws, pickle and clone are external (observed, not modelled). Known finding (recorded, not repaired): clone() raises RuntimeError after a pickle round trip for the 8 classes with deprecated alias parameters (see known_findings.json).",
    technique="Lean 4 proof (state machine over all histories) + history fuzzing against a fresh-clone oracle",
    ref="§6 C17"),
+ 'C19': dict(
+   text="Theorems over ℝ: within-tuple differences — all the tuple learners read — are translation invariant; the sample covariance is invariant under translation and under any permutation of the samples, maps to QᵀCQ under X ↦ XQ and scales by c² under X ↦ cX (so M = C⁻¹ scales distances by 1/c: C19_distance_scale); squared sample distances and the embedded distances of the NCA/MLKR/LMNN objectives are translation invariant; the quadratic form of QMQᵀ at v is that of M at Qᵀv; and, on the executable ITML model (via the C11 bridge lemmas), a projection with every pair's difference vector negated yields the same matrix, duals and bounds (swap invariance). Tie: metamorphic runs of the real estimators on dyadic-grid data — translation for all 17, within-tuple swaps (ITML, MMC, SDML; both pairs for LSML), sample permutation (Covariance, RCA), rotation by an orthogonal Q for the listed learners incl. covariance priors/inits (M' vs QᵀMQ), scaling (Covariance, RCA) — plus the Float twin's covariance under translation.",
+   note=TB + "Proved for the closed-form ingredients and for ITML's step; for the other iterative learners (LSML/MMC spectral steps, SCML's stochastic loop, L-BFGS/ARPACK learners) invariance of the whole trajectory is carried by the metamorphic runs only, with tolerances 1e-9 (exact-arithmetic relations), 1e-6 (rotation/scaling) and 1e-5 (NCA, MLKR, LFDA; small iteration budgets).",
+   technique="Lean 4 proof (invariance/equivariance of the modelled ingredients and of the ITML step) + metamorphic runs on dyadic data",
+   ref="§6 C19"),
 }
 
 NOT_YET = {}
